@@ -3,7 +3,8 @@
 From Coq Require Import PrimFloat.
 Require Import D42.Prelude D42.PyFloat D42.Value D42.Regex D42.Schema D42.Validate D42.Conforms
                D42.FromNative D42.Substitute D42.Agree D42.ChoiceFree.
-Require Import D42P.ValidateSpec D42P.SubstPins D42P.SubstAccepts.
+Require Import D42.PyRandom D42.Generate D42.Sat D42.HSat.
+Require Import D42P.ValidateSpec D42P.SubstPins D42P.SubstAccepts D42P.SubstSat.
 
 (* Every value the substituted schema accepts carries the substituted data: for every
    well-formed schema s, every plain value v (dict keys pairwise distinct, as in any Python
@@ -112,3 +113,18 @@ Proof.
   apply (subst_accepts_value_partial ex_s); try (vm_compute; reflexivity); [exact E|].
   apply (verdict_iff_conforms_lemma ex_s); vm_compute; reflexivity.
 Qed.
+
+(* The generation clause, proved: "every value the result GENERATES carries the substituted data".  Under [hsat]
+   (theories/HSat.v: a hypothesis on the original schema about what substitution leaves untouched) the result
+   is satisfiable, so for every world and EVERY tape the generator returns a value - and that value carries v. *)
+Theorem subst_generated_carries :
+  forall w s v s', world_ok w -> wf s = true -> hsat w s -> plain v = true -> vwf v = true ->
+    substitute s v = Ok s' ->
+    forall t, exists g t', gen w s' t = Ok (g, t') /\ conforms s' g /\ pins v g.
+Proof.
+  intros w s v s' Hw Hwf Hh Hpl Hvw Hs t.
+  destruct (subst_result_generates w s v s' Hw Hwf Hh Hpl Hvw Hs t) as (g & t' & Hg & Hc).
+  exists g, t'. split; [exact Hg|]. split; [exact Hc|].
+  exact (subst_pins_lemma s Hwf v s' Hpl Hvw Hs g Hc).
+Qed.
+Print Assumptions subst_generated_carries.
